@@ -53,7 +53,7 @@ pub fn fixed_jobs(tier: Tier, need: Need) -> Vec<Job> {
       continue;
     }
     let (alphabet, n, rule) = match tier {
-      Tier::Quick => if full.len() <= 60 { (full, 3, "all mentioned keys + 1 foreign key + 1 foreign modifier") } else { (trig, 2, "trigger keys + 1 foreign key + 1 foreign modifier") },
+      Tier::Quick => if full.len() <= 40 { (full, 3, "all mentioned keys + 1 foreign key + 1 foreign modifier") } else if full.len() <= 60 { (trig, 3, "trigger keys + 1 foreign key + 1 foreign modifier") } else { (trig, 2, "trigger keys + 1 foreign key + 1 foreign modifier") },
       Tier::Thorough => if full.len() <= 14 { (with_foreign(mentioned_keys(&nl.layout), &nl.layout, 2), 4, "all mentioned keys + 2 foreign keys + 2 foreign modifiers") } else if full.len() <= 60 { (full, 3, "all mentioned keys + 1 foreign key + 1 foreign modifier") } else { (trig, 3, "trigger keys + 1 foreign key + 1 foreign modifier") },
     };
     jobs.push(Job::Fixed { name: nl.name, layout: nl.layout, alphabet, n, alpha_rule: rule });
@@ -123,7 +123,9 @@ pub fn run_jobs(ctx: &Ctx, jobs: &[Job], props: u32, stop_prop: u32, cap_states:
     // generated layouts are tiny on a correct tree (hundreds to a few thousand states): a much lower cap keeps a
     // tree whose bookkeeping grows without bound from exhausting memory before the cap is reported
     let cap_here = match &jobs[ji] { Job::Gen { .. } => cap_states.min(400_000), Job::Fixed { name, .. } if name.starts_with("Q4-") || name.starts_with("S4-") || name.starts_with("S5-") => cap_states.min(400_000), _ => cap_states };
-    let opts = Opts { n, max_states: cap_here, props, stop_prop, known: known.clone(), conformance_stride: 64, keep_samples: if ji % 97 == 0 { 1 } else { 0 }, max_depth: 48 };
+    let opts = Opts { n, max_states: cap_here, props, stop_prop, known: known.clone(), conformance_stride: 64, keep_samples: if ji % 97 == 0 { 1 } else { 0 }, max_depth: 48,
+      // the few large fixed layouts expand each BFS level on several threads (results do not depend on the number)
+      inner_threads: if ctx.tier == Tier::Thorough && matches!(&jobs[ji], Job::Fixed { .. }) && alphabet.len() >= 30 && n >= 3 { std::env::var("VERIF_INNER_THREADS").ok().and_then(|v| v.parse().ok()).unwrap_or((ctx.threads / 2).max(1)) } else { 1 } };
     let r = explore(&layout, &alphabet, &opts);
     acc.layouts += 1; acc.states += r.states as u64; acc.transitions += r.transitions; acc.max_depth = acc.max_depth.max(r.depth);
     acc.rest_states += r.rest_states as u64; acc.nontrivial_states += r.nontrivial_states; acc.conformance += r.conformance_replayed; acc.blocks += r.blocks as u64;
@@ -303,8 +305,11 @@ pub fn same_final_jobs(need: Need, k: usize) -> Vec<Job> {
 
 pub fn run(ctx: &Ctx) -> Outcome {
   let id = ctx.id.as_str();
-  let bit = prop_bit(id);
-  let plan = plan_for(id, ctx.tier);
+  // AALL (not a registered check): the whole-corpus plan with the predicates of ALL mapper properties at once -
+  // a smoke test that costs one exploration instead of ten; its violations are printed per property
+  let all_mode = id == "AALL";
+  let bit = if all_mode { P_ALL } else { prop_bit(id) };
+  let plan = plan_for(if all_mode { "C06" } else { id }, ctx.tier);
   let mut jobs = fixed_jobs(ctx.tier, plan.need);
   let n_fixed = jobs.len();
   let mut rules: Vec<Value> = vec![];
@@ -329,7 +334,7 @@ pub fn run(ctx: &Ctx) -> Outcome {
   // big fixed layouts first so that they do not become the tail
   jobs.sort_by_key(|j| match j { Job::Fixed { alphabet, n, .. } => 0usize.wrapping_sub(alphabet.len().pow(*n as u32)), _ => usize::MAX / 2 });
   let cap = ctx.tier.pick(6_000_000usize, 40_000_000usize);
-  let agg = run_jobs(ctx, &jobs, bit, bit, cap);
+  let agg = run_jobs(ctx, &jobs, bit, if all_mode { 0 } else { bit }, cap);
 
   // determinism self-check: the first generated job twice, identical counts
   let mut determinism_ok = true;
@@ -371,6 +376,9 @@ pub fn run(ctx: &Ctx) -> Outcome {
     o.violations.push(Violation { property: prop_name(v.prop).to_string(), clause: v.clause.to_string(), signature: v.sig.map(|s| s.to_string()), description: v.detail.clone(), artefact: art.clone(), count: v.count });
   }
   if !agg.failures.is_empty() { o.machinery_error = Some(agg.failures[0].clone()); }
+  if all_mode {
+    for v in &o.violations { println!("AALL: {} / {} sig={:?} instances={} :: {}", v.property, v.clause, v.signature, v.count, truncate(&v.description, 300)); }
+  }
   if !agg.incomplete.is_empty() && o.violations.iter().all(|v| v.property != id) { o.machinery_error = Some(format!("state cap reached before the declared space was covered: {}", agg.incomplete[0])); }
   if !determinism_ok { o.machinery_error = Some("two explorations of the same layout gave different counts".into()); }
   if !agg.panics.is_empty() && bit != P_C14 {
